@@ -5,6 +5,8 @@ import (
 	"encoding/xml"
 	"errors"
 	"io"
+	"net/url"
+	"path"
 	"strings"
 )
 
@@ -48,7 +50,7 @@ func checkForDRM(zr *zip.Reader) error {
 		case "META-INF/encryption.xml":
 			// Need to parse to check if content files are encrypted
 			// (font obfuscation is OK, content encryption is not)
-			encrypted, err := hasEncryptedContent(f)
+			encrypted, err := hasEncryptedContent(f, contentDocuments(zr))
 			if err != nil {
 				// If we can't parse it, assume it's DRM
 				return ErrDRMProtected
@@ -63,7 +65,7 @@ func checkForDRM(zr *zip.Reader) error {
 
 // hasEncryptedContent parses encryption.xml and checks if any content files
 // (XHTML, HTML) are encrypted. Font obfuscation is allowed.
-func hasEncryptedContent(f *zip.File) (bool, error) {
+func hasEncryptedContent(f *zip.File, docs map[string]bool) (bool, error) {
 	rc, err := f.Open()
 	if err != nil {
 		return false, err
@@ -82,7 +84,13 @@ func hasEncryptedContent(f *zip.File) (bool, error) {
 
 	// Check each encrypted resource
 	for _, ed := range enc.EncryptedData {
-		uri := strings.ToLower(ed.CipherData.CipherReference.URI)
+		// The reference is a URI: "ch1%2Exhtml" and "ch1.xhtml" name the same file
+		uri := ed.CipherData.CipherReference.URI
+		if decoded, err := url.PathUnescape(uri); err == nil {
+			uri = decoded
+		}
+		isDoc := docs[path.Clean(uri)]
+		uri = strings.ToLower(uri)
 
 		// Font obfuscation algorithms are OK
 		algo := ed.EncryptionMethod.Algorithm
@@ -91,12 +99,32 @@ func hasEncryptedContent(f *zip.File) (bool, error) {
 		}
 
 		// Check if this is a content file (not a font or image)
-		if isContentFile(uri) {
+		if isDoc || isContentFile(uri) {
 			return true, nil
 		}
 	}
 
 	return false, nil
+}
+
+// contentDocuments returns the archive paths of the documents in the spine: content documents
+// by declaration, whatever their file names look like (no extension, ".xht", ...).
+func contentDocuments(zr *zip.Reader) map[string]bool {
+	docs := map[string]bool{}
+	opfPath, err := parseContainer(zr)
+	if err != nil {
+		return docs
+	}
+	pkg, baseDir, err := parseOPF(zr, opfPath)
+	if err != nil {
+		return docs
+	}
+	for _, ref := range pkg.Spine {
+		if item, ok := pkg.Manifest[ref.IDRef]; ok {
+			docs[(&Reader{baseDir: baseDir}).resolveHref(item.Href)] = true
+		}
+	}
+	return docs
 }
 
 // isFontObfuscation returns true if the algorithm is a font obfuscation method.
